@@ -99,6 +99,7 @@ const (
 	FeeLiteral
 	FeeHigherPlusExtraDenom
 	FeeFirstModuleOnly // pay what the first fee-bearing operation's module costs in total, nothing for the other module
+	FeeSubset          // pay the oracle sum of a non-empty strict subset of the fee-bearing operations (bitmask in Amt)
 )
 
 type FeeSpec struct {
